@@ -1,16 +1,15 @@
-"""Registry of claimed checks -> MANIFEST.json (bin/mkmanifest).  Text fields are the claims."""
+"""Registry of claimed checks -> MANIFEST.json (bin/mkmanifest).  Each checks/cNN.py defines
+REG = dict(category=..., text=..., note=..., technique=..., design_ref=...)."""
+import glob, importlib, os, sys
+sys.path.insert(0, "/verif/lib")
 CHECKS = {}
 NOT_APPLICABLE = {}
-
-def reg(pid, category, text, note, technique, design_ref):
-    CHECKS[pid] = dict(category=category, text=text, note=note, technique=technique, design_ref=design_ref)
-
-reg("C01", "model_checking",
-    "Ecdsa.tla is an executable TLA+ definition of ECDSA verify / RFC 6979 sign / recover on real 256-bit values. TLC (a) enumerates the order-7/13/199 "
-    "test groups completely (every key, message residue, nonce, (r,s) pair incl. overflow encodings) checking completeness/soundness invariants on the spec and "
-    "replaying every record into the small-group build of the real code, (b) generates boundary records in the real group (s = (n-1)/2, (n+1)/2, r+n<p family, "
-    "messages >= n, invalid keys, failing nonce callbacks, all recovery ids) replayed on the real API, (c) validates traces recorded from the implementation.",
-    "Trusted: TLC, BigInteger/MessageDigest overrides (cross-checked against the TLA+ definitions), the harness interpreter. Real-group inputs are a structured "
-    "finite pool plus seeded random values, not all 2^256 values; exhaustive only in the small groups (which use scalar_low_impl.h).",
-    "TLA+ spec executed by TLC; spec-generated records replayed into the C API; implementation traces validated by TLC; exhaustive small-group comparison",
-    "DESIGN.md §4 C01")
+HOOK_COMMITS = []
+for f in sorted(glob.glob(os.path.dirname(__file__) + "/c[0-9][0-9].py")):
+    name = os.path.basename(f)[:-3]
+    m = importlib.import_module(name)
+    if hasattr(m, "REG"):
+        CHECKS[name.upper()] = m.REG
+hc = os.path.dirname(__file__) + "/../hook_commits.txt"
+if os.path.exists(hc):
+    HOOK_COMMITS = [l.strip() for l in open(hc) if l.strip()]
